@@ -55,7 +55,7 @@ static const char* catName(support::ErrorCategory c) {
     }
 }
 
-struct Opts { std::string path; std::vector<double> draws; bool noexec = false; int shots = 1; bool twice = false; };
+struct Opts { std::string path; std::vector<double> draws; bool noexec = false; int shots = 1; bool twice = false; std::string after; };
 
 static void dumpEval(std::ostringstream& js, const runtime::RuntimeEvaluator& ev) {
     const auto& sim = runtime::VerifAccess::sim(ev);
@@ -105,6 +105,20 @@ static std::string runCase(const Opts& o) {
         auto program = loader.load(o.path);
         phase = "analyse";
         compiler::SemanticAnalyser analyser;
+        if (!o.after.empty()) {
+            // C13: one analyser instance, first this program (which may be rejected), then a known-good one
+            std::string first = "ok", second = "ok";
+            try { analyser.analyse(*program); }
+            catch (const support::BlochError& e) { first = std::string("error:") + catName(e.category); }
+            compiler::ModuleLoader loader2;
+            auto good = loader2.load(o.after);
+            try { analyser.analyse(*good); }
+            catch (const support::BlochError& e) { second = std::string("error:") + catName(e.category) + ":" + e.what(); }
+            std::cout.rdbuf(oldOut);
+            std::cerr.rdbuf(oldErr);
+            js << "{\"status\":\"reuse\",\"first\":" << jstr(first) << ",\"after\":" << jstr(second) << "}";
+            return js.str();
+        }
         analyser.analyse(*program);
         if (o.twice) {
             compiler::SemanticAnalyser analyser2;
@@ -167,6 +181,7 @@ int main(int argc, char** argv) {
                 while (std::getline(ds, d, ',')) if (!d.empty()) o.draws.push_back(std::stod(d));
             } else if (tok == "noexec") o.noexec = true;
             else if (tok == "twice") o.twice = true;
+            else if (tok.rfind("after=", 0) == 0) o.after = tok.substr(6);
             else if (tok.rfind("shots=", 0) == 0) o.shots = std::stoi(tok.substr(6));
         }
         int fds[2];
